@@ -82,8 +82,12 @@ structure RouteCfg where
   regSame : Bool
   /-- user-added symbols are in the restored table -/
   keepsAdded : Bool
-  /-- a default symbol whose value was modified keeps the modified value -/
+  /-- a default symbol whose value (or dimensions, or offset) was modified keeps the modified data -/
   keepsModifiedDefault : Bool
+  /-- a default symbol that was re-declared with exactly the default value, dimensions and offset but
+      the OTHER SI-prefixability flag keeps its flag (read only when `keepsModifiedDefault`; a route
+      that decides "this is unyt's own row, no need to carry it" on the data alone has `false`) -/
+  keepsFlagOnlyDefault : Bool
   /-- a default symbol that was removed stays removed -/
   keepsRemoved : Bool
   /-- identity of the dimension objects of user rows / of rows keyed by a default symbol -/
